@@ -9,6 +9,7 @@ CONSTANTS
   BFaults <- BFaultsNone
   Ras <- RasNone
   Modes = {"call", "exec"}
+  RunGaps <- GapsNone
   NRuns = 1
   Configs <- ConfigsC16
   RecordHist = FALSE
